@@ -13,7 +13,10 @@ from core import (MachineryError, Verdict, parallel_isolated, require_ok, requir
                   run_tlc, workdir)
 
 TARGETS = ["unit_mul", "unit_div", "unit_pow", "unit_root", "unit_pmul", "unit_as_ratio", "dim_mul", "dim_pow",
-           "prefix_new", "prefix_mul", "logarithm", "logunit", "quantify"]
+           "prefix_new", "prefix_mul", "logarithm", "logunit", "quantify", "unit_define"]
+# a definition (a NAMED base unit): evaluated a second time it either gives the same unit back or is refused with
+# ValueError (the name is taken) - a refused call has no effect and is left out of the history
+REFUSABLE = {"unit_define": "ValueError"}
 
 
 def _setup():
@@ -42,6 +45,7 @@ def _setup():
         "logarithm": lambda: m.Logarithm(3.0),
         "logunit": lambda: m.Decibel[ref],
         "quantify": lambda: kub.quantify().unit,
+        "unit_define": lambda: Time.unit("vcdefined", "vcdf"),
     }
     return m, bodies
 
@@ -76,18 +80,31 @@ def _run_schedule(item):
         return oids.setdefault(id(o), len(oids) + 1)
     hist = []
     exc = None
+    refused = set()
     for e in res.events:
         if e[0] == "call":
             hist.append({"ev": "call", "thr": names[e[1]], "key": target, "oid": 0})
         else:
             kind, val = e[2]
-            if kind != "ok":
+            if kind != "ok" and REFUSABLE.get(target) == type(val).__name__:
+                refused.add(names[e[1]])
+                hist.append({"ev": "ret", "thr": names[e[1]], "key": target, "oid": -1})
+            elif kind != "ok":
                 exc = "%s: %s" % (type(val).__name__, val)
                 hist.append({"ev": "ret", "thr": names[e[1]], "key": target, "oid": -1})
             else:
                 hist.append({"ev": "ret", "thr": names[e[1]], "key": target, "oid": oid(val)})
-    later = bodies[target]()
-    entry = _table_entry(m, later)
+    if target in REFUSABLE:
+        hist = [h for h in hist if h["thr"] not in refused]
+        if not hist:
+            exc = "every thread was refused"
+        try:
+            later = m.Unit.named("vcdefined")
+        except Exception as ex:
+            later, exc = None, "the defined unit cannot be looked up afterwards: %s" % type(ex).__name__
+    else:
+        later = bodies[target]()
+    entry = _table_entry(m, later) if later is not None else None
     hist.append({"ev": "final", "thr": "", "key": target, "oid": oid(entry) if entry is not None else -2})
     hist.append({"ev": "final", "thr": "", "key": target, "oid": oid(later)})
     return {"hist": hist, "steps": {names[k]: v for k, v in res.steps.items()}, "blocked": res.blocked, "exc": exc}
